@@ -550,6 +550,9 @@ class World(object):
         started = 0
         for a in acts:
             i = a.get("item_id")
+            if i in (it.get("carried") or []):
+                self.report("C17", "nothing_repeated", "item %r of %s had succeeded before the rerun and is offered again "
+                            "although reset_items was not requested" % (i, x.key()))
             if i in it["offered"] and i not in it.get("reoffer_ok", set()):
                 kf = None
                 tags = []
